@@ -10,21 +10,15 @@ from sa import props
 V = os.path.dirname(os.path.dirname(os.path.abspath(__file__)))
 
 def viol(root):
+    from sa import report
     out = {}
     P = Program(root)
     for pid in sorted(props.PROPS):
         s = set()
-        try:
-            for rule in props.PROPS[pid]["rules"]:
-                r = rule(P) if not isinstance(rule, tuple) else rule[0](P, **rule[1])
-                for rr in r if isinstance(r, list) else [r]:
-                    if len(rr.obs) < rr.min_instances:
-                        s.add(("ANALYSIS-ERROR", rr.rule))
-                    for o in rr.obs:
-                        if not o.ok:
-                            s.add((o.rule if not o.undecided else 'UNDECIDED:' + o.rule, f"{o.file}::{o.function}"))
-        except AnalysisError as e:
-            s.add(("ANALYSIS-ERROR", str(e)[:80]))
+        for rr in report.run_rules(P, props.PROPS[pid]["rules"]):
+            for o in rr.obs:
+                if not o.ok:
+                    s.add((o.rule if not o.undecided else 'UNDECIDED:' + o.rule, f"{o.file}::{o.function}"))
         out[pid] = s
     return out
 
